@@ -26,17 +26,19 @@ Definition send13 (a : alg) (tag : Z) (key iv version : bytes) (st : sstate) (co
   Ok ({| ss_seq := ss_seq st + 1; ss_last := ss_last st; ss_off := ss_off st |}, mk_record 23 version ct).
 
 (* TLS 1.2 AEAD (RFC 5288): explicit 8-byte nonce part chosen by the sender *)
-Definition send12_aead (a : alg) (tag : Z) (key salt version : bytes) (st : sstate) (explicit content : bytes) : result (sstate * tls_record) :=
-  let aad := to_be_total (ss_seq st) 8 ++ [23] ++ version ++ to_be_total (len content) 2 in
+Definition send12_aead_t (rt : Z) (a : alg) (tag : Z) (key salt version : bytes) (st : sstate) (explicit content : bytes) : result (sstate * tls_record) :=
+  let aad := to_be_total (ss_seq st) 8 ++ [rt] ++ version ++ to_be_total (len content) 2 in
   do ct <- c_aead_enc C a tag key (salt ++ explicit) content aad;
-  Ok ({| ss_seq := ss_seq st + 1; ss_last := ss_last st; ss_off := ss_off st |}, mk_record 23 version (explicit ++ ct)).
+  Ok ({| ss_seq := ss_seq st + 1; ss_last := ss_last st; ss_off := ss_off st |}, mk_record rt version (explicit ++ ct)).
+Definition send12_aead := send12_aead_t 23.
 
 (* TLS 1.2 ChaCha20-Poly1305 (RFC 7905) *)
-Definition send12_chacha (key iv version : bytes) (st : sstate) (content : bytes) : result (sstate * tls_record) :=
-  let aad := to_be_total (ss_seq st) 8 ++ [23] ++ version ++ to_be_total (len content) 2 in
+Definition send12_chacha_t (rt : Z) (key iv version : bytes) (st : sstate) (content : bytes) : result (sstate * tls_record) :=
+  let aad := to_be_total (ss_seq st) 8 ++ [rt] ++ version ++ to_be_total (len content) 2 in
   let nonce := xor_zip iv (zeros (len iv - 8) ++ to_be_total (ss_seq st) 8) in
   do ct <- c_aead_enc C ChaCha20Poly1305 16 key nonce content aad;
-  Ok ({| ss_seq := ss_seq st + 1; ss_last := ss_last st; ss_off := ss_off st |}, mk_record 23 version ct).
+  Ok ({| ss_seq := ss_seq st + 1; ss_last := ss_last st; ss_off := ss_off st |}, mk_record rt version ct).
+Definition send12_chacha := send12_chacha_t 23.
 
 (* RC4: the key stream continues from record to record *)
 Definition send_rc4 (key version : bytes) (st : sstate) (content mac : bytes) : result (sstate * tls_record) :=
